@@ -96,7 +96,11 @@ __CPROVER_assigns()
 double w_slack(void *c)
 __CPROVER_requires(__CPROVER_is_fresh(c, sizeof(struct Constraint)))
 __CPROVER_requires(__CPROVER_is_fresh(C(c)->left, sizeof(struct Variable)))
+#ifdef SLACK_SAME_VARIABLE
+__CPROVER_requires(C(c)->right == C(c)->left)
+#else
 __CPROVER_requires(__CPROVER_is_fresh(C(c)->right, sizeof(struct Variable)))
+#endif
 /* Solver's constructor sets needsScaling iff some variable has scale != 1 */
 __CPROVER_requires(!C(c)->needsScaling ==> (C(c)->left->scale == 1.0 && C(c)->right->scale == 1.0))
 #ifdef INT_MODE
